@@ -54,11 +54,19 @@ class Module:
         if not hasattr(self, '_initialized') or not self._initialized:
             raise RuntimeError("Module is not initialized. Call super().__init__() first")
         
+    def check_name_is_free(self, name:str):
+        # names the module machinery uses itself (the mode flag, the registries, methods) cannot hold a registration:
+        # e.g. the next train()/eval() would overwrite a submodule called 'training'
+        taken = getattr(type(self), name, None) # methods and properties of the class, not plain class-level defaults
+        if name in ('training', '_submodules', '_parameters', '_initialized') or callable(taken) or isinstance(taken, property):
+            raise KeyError(f"attribute '{name}' already exists")
+        
     def register_module(self, name:str, module:'Module'):
         self.check_is_initialized()
     
         if not isinstance(module, Module):
             raise TypeError("All submodules must be of type Module")
+        self.check_name_is_free(name)
         
         self._parameters.pop(name, None) # a name holds one registration: the new value replaces the old one
         self._submodules[name] = module
@@ -69,6 +77,7 @@ class Module:
         
         if not isinstance(parameter, Parameter):
             raise TypeError("All parameters must be of type Parameter")
+        self.check_name_is_free(name)
         
         self._submodules.pop(name, None) # a name holds one registration: the new value replaces the old one
         self._parameters[name] = parameter
